@@ -140,8 +140,10 @@ def _kvlist(keys, vals):
 
 
 ONE_DICT = os.environ.get("VERIF_ONE_DICT", "0") == "1"
-KEYS = ["a", "b", b"a", "\u00e9"]      # str and bytes spellings, one non-ASCII
-VALS = ["x", b"y", "", None]
+# str and bytes spellings; one non-ASCII key in DECOMPOSED form (e + combining acute) and a value that is not in any
+# Unicode normal form (OHM SIGN): keys and values are stored and matched byte for byte, never normalised
+KEYS = ["a", "b", b"a", "e\u0301"]
+VALS = ["\u2126", b"y", "", None]
 
 
 def _b(x):
@@ -156,7 +158,7 @@ def h_update_rules(n_old: int, u0: int, w0: int, u1: int, w1: int, n_upd: int) -
     """
     # existing entries are bytes (as parsed from a file); the update dict may spell a key as str or bytes; None
     # deletes.  Two successive single-key updates == the model (dict update, untouched keys keep their place).
-    old = [(b"a", b"1"), (b"\xc3\xa9", b"2")][:n_old]
+    old = [(b"a", b"1"), (b"e\xcc\x81", b"2")][:n_old]
     fmd = ThriftObject.from_fields("FileMetaData", key_value_metadata=_kvlist([e[0] for e in old],
                                                                               [e[1] for e in old]),
                                    version=1, num_rows=0, row_groups=[],
@@ -191,7 +193,7 @@ def replay_h_update_rules(n_old, u0, w0, u1, w1, n_upd):
     import os, shutil, tempfile
     import pandas as pd
     import fastparquet
-    old = dict([(b"a", b"1"), (b"\xc3\xa9", b"2")][:n_old])
+    old = dict([(b"a", b"1"), (b"e\xcc\x81", b"2")][:n_old])
     upds = [(KEYS[u0], VALS[w0]), (KEYS[u1], VALS[w1])][:n_upd]
     d = tempfile.mkdtemp(prefix="c16-")
     try:
